@@ -61,7 +61,12 @@ def rule_dict(model, rep):
         if ok:
             rep.check(ast.unparse(n.value) == f"self.{fld}", R, s, ast.unparse(n), f"state[{fld!r}] carries self.{fld}")
     # adapter facts
-    rep.check("assert cls._check_otp_type(type)" in at, R, site("TOTP._adapt_dict_kwds"), "type checked", "record type must be 'totp'")
+    # the record type is checked by a statement that survives `python -O`; record data is never validated by `assert`
+    typed = [st for st in adapt.body if isinstance(st, ast.Expr) and isinstance(st.value, ast.Call) and ast.unparse(st.value) == "cls._check_otp_type(type)"]
+    asserts = [ast.unparse(a.test) for a in walk_no_nested(adapt) if isinstance(a, ast.Assert)]
+    rep.check(len(typed) == 1 and not asserts, R, site("TOTP._adapt_dict_kwds") + " no assert", ("assert " + "; assert ".join(asserts)) if asserts else "cls._check_otp_type(type) as a statement",
+              "the record type is checked unconditionally and inconsistent records (a plain `key` next to `enckey`) are refused with ValueError -- an assert is AssertionError, or nothing under -O",
+              witness="from_dict({'v':1,'type':'totp','key':K,'enckey':{...}}) raises AssertionError; under python -O from_dict({'v':1,'type':'bogus','key':K}) is accepted")
     rep.check(has_if(adapt, "not ver or ver < cls.min_json_version or ver > cls.json_version"), R, site("TOTP._adapt_dict_kwds"), "version window", "missing / unsupported version -> ValueError")
     rep.check("kwds.update(key=kwds.pop('enckey'), format='encrypted')" in at, R, site("TOTP._adapt_dict_kwds"), "enckey -> key, format='encrypted'", "encrypted keys are routed to the decrypting setter")
     rep.check(has_if(adapt, "'key' not in kwds"), R, site("TOTP._adapt_dict_kwds"), "missing key -> ValueError", "a record without key material is refused")
